@@ -66,6 +66,18 @@ impl Prop for C11 {
                 });
             }
         }
+        let worse = counters.get("fits_but_narrower_result_worse").copied().unwrap_or(0);
+        if pairs >= 5000 && worse * 5000 > pairs {
+            v.push(crate::prop::Violation {
+                property: "C11".into(),
+                class: "worse-narrower-layout-rate".into(),
+                detail: format!("{worse} of {pairs} width pairs whose wider result fits the narrower width gave a narrower result with a different number of lines or an overflowing line (calibrated rate on the unchanged tree: about 0.001 per mille, limit 0.2 per mille)"),
+                input: String::new(),
+                cfg: None,
+                extra: serde_json::Value::Null,
+                case_index: 0,
+            });
+        }
         if !v.is_empty() {
             return v;
         }
@@ -145,7 +157,11 @@ impl Prop for C11 {
                             out.count("fits_but_differs_both_fit");
                             "search-choice-depends-on-width"
                         } else {
-                            "fits-but-differs"
+                            // the narrower search returned a worse layout (more lines, or an overflowing
+                            // one) although the wider result fits the narrower width: the best-first search
+                            // is not exact; about 1 in a million pairs on the unchanged tree, judged by its rate
+                            out.count("fits_but_narrower_result_worse");
+                            "search-misses-better-layout"
                         };
                         out.violate("C11", class, format!("{} [{}] result at wrap_column {w2} has widest line {max2} <= {w1}, but the result at {w1} differs", w.name, base.short()), &w.text, Some(&c1));
                     }
